@@ -44,12 +44,17 @@ HasFrag(ns, name) == \E j \in 1..Len(ns) : ns[j].k = "FRAG" /\ ns[j].name = name
 
 \* value of a literal under the variable assignment (leaf literals only here; the
 \* full input coercion lives in InputCoercion.tla)
+RECURSIVE LitValue(_, _)
 LitValue(C, lit) ==
   IF lit.t = "var" THEN (IF lit.v \in DOMAIN C.vars THEN C.vars[lit.v] ELSE Absent)
   ELSE IF lit.t = "int" THEN Int(lit.v)
   ELSE IF lit.t = "str" THEN Str(lit.v)
   ELSE IF lit.t = "bool" THEN Bool(lit.v)
   ELSE IF lit.t = "enum" THEN Enum(lit.v)
+  ELSE IF lit.t = "list" THEN Lst([i \in 1..Len(lit.v) |-> LET x == LitValue(C, lit.v[i]) IN IF IsAbsent(x) THEN Null ELSE x])
+  ELSE IF lit.t = "obj" THEN
+       LET idx == SelectSeq([i \in 1..Len(lit.v) |-> i], LAMBDA i : ~IsAbsent(LitValue(C, lit.v[i][2]))) IN
+       Obj([j \in 1..Len(idx) |-> <<lit.v[idx[j]][1], LitValue(C, lit.v[idx[j]][2])>>])
   ELSE Null
 
 \* @skip / @include (skip has precedence; both must allow)
@@ -127,9 +132,14 @@ CoerceArgs(C, fdef, node) ==
      [r |-> "bad"]           a value the leaf type cannot serialise
      [r |-> "nonlist"]       a non-list where a list is declared
    The default rule below is overridden position-wise by C.overlay.                *)
+RECURSIVE VStr(_), VStrSeq(_), VStrPairs(_)
+VStrSeq(sq) == IF sq = <<>> THEN "" ELSE VStr(sq[1]) \o (IF Len(sq) > 1 THEN "," ELSE "") \o VStrSeq(Tail(sq))
+VStrPairs(sq) == IF sq = <<>> THEN "" ELSE sq[1][1] \o ":" \o VStr(sq[1][2]) \o (IF Len(sq) > 1 THEN "," ELSE "") \o VStrPairs(Tail(sq))
 VStr(v) == IF v.t = "N" THEN "null"
            ELSE IF v.t = "B" THEN (IF v.v THEN "true" ELSE "false")
            ELSE IF v.t = "I" THEN ToString(v.v)
+           ELSE IF v.t = "L" THEN "[" \o VStrSeq(v.v) \o "]"
+           ELSE IF v.t = "O" THEN "{" \o VStrPairs(v.v) \o "}"
            ELSE v.v
 RECURSIVE ArgStrR(_)
 ArgStrR(a) == IF a = <<>> THEN ""
